@@ -36,6 +36,7 @@ ASSUMPTIONS = ["BLS point decompression and subgroup membership (blst), the CLVM
 TRUSTED = ["Python reference encoder and generator in driver/props/wire_common.py", "hashlib.sha256"]
 
 GOLDEN = C.VERIF + "/corpus/C13/golden.jsonl"
+W_D = [None]      # the type description of this run (set in run)
 
 
 def outcome(tok):
@@ -98,6 +99,9 @@ def run(ctx):
     rng = C.SplitMix64(ctx["seed"])
     have_model = ctx["have_model"]
     D = W.Descs()
+    W_D[0] = D
+    rep.extra["types_from_snapshot"] = D.broken is not None
+    rep.extra["snapshot_stale"] = D.snapshot_stale
     cache = W.OracleCache()
 
     # the model and the harness must enumerate the identical type list (both generated from one parse)
@@ -121,7 +125,7 @@ def run(ctx):
 
     # ---------------- wire.valid
     valid = gen_valid(D, G, rng, per_type)
-    run_rt(rep, cache, have_model, "wire.valid", [(c["type"], c["bytes"], "valid") for c in valid], valid)
+    run_rt(rep, cache, have_model, "wire.valid", [(c["type"], c["bytes"], "valid") for c in valid], valid, quality=P.v2_quality)
 
     # ---------------- wire.mut
     mrng = rng.fork("mut")
@@ -151,11 +155,62 @@ def run(ctx):
     enc_cases += ill_formed_values(D, G2, erng)
     run_enc(rep, cache, have_model, enc_cases, D)
 
+    # ---------------- wire.prefix: every value of every hand-written prefix byte
+    run_rt(rep, cache, have_model, "wire.prefix", prefix_sweep(D, W.Gen(D, P, rng.fork("prefix")), tier), None)
+
+    # ---------------- wire.v2: the repository's valid v2 proofs (quality-string-tests), hash against the reference
+    v2 = v2_vector_cases(D, W.Gen(D, P, rng.fork("v2")), P)
+    run_rt(rep, cache, have_model, "wire.v2", [(c["type"], c["bytes"], "v2-vector") for c in v2], v2, quality=P.v2_quality)
+    if not v2:
+        rep.add_broken("corpus", "quality-string-tests", "no valid v2 proof-of-space vectors found under crates/chia-protocol/quality-string-tests")
+
     # ---------------- wire.golden
     run_golden(rep, D)
 
 
-def run_rt(rep, cache, have_model, stream, cases, valid_meta):
+BOUNDARY_BYTES = [0, 1, 2, 3, 4, 5, 6, 7, 8, 0x10, 0x20, 0x40, 0x7f, 0x80, 0x81, 0x82, 0x83, 0x84, 0xfc, 0xfd, 0xfe, 0xff]
+
+
+def prefix_sweep(D, G, tier):
+    """all 256 values at the hand-written prefix bytes (two-option helper of utils.rs, version-packed Option prefixes
+    of ProofOfSpace / FullBlock / UnfinishedBlock), for a value of every prefix combination"""
+    cases = []
+    for n in W.prefix_types(D):
+        is_pos = D.types[n]["name"] == "ProofOfSpace"
+        for ci, (tag, v) in enumerate(W.prefix_combo_values(D, G, n)):
+            bs, marks = W.encode(D, D.top[n], v)
+            own_kind = "version" if (is_pos or any(fd[0] == "GenTail" for _, fd in D.types[n]["wire"] or [])) else "opt2"
+            cand = [m for m in marks if m[1] in ("opt2", "version")]
+            own = [m for m in cand if m[1] == own_kind][-1:]
+            sites = cand if tier != "quick" else own
+            small = len(bs) < 600
+            for off, kind, _, _ in sites:
+                full = tier != "quick" or small or ci == 0
+                for b in (range(256) if full else BOUNDARY_BYTES):
+                    if b == bs[off]:
+                        continue
+                    m = bytearray(bs)
+                    m[off] = b
+                    cases.append((n, bytes(m), "%s:%s" % (kind, tag)))
+            cases.append((n, bs, "%s:unchanged" % tag))
+    return cases
+
+
+def v2_vector_cases(D, G, P):
+    out = []
+    for v in P.v2:
+        out.append({"type": "ProofOfSpace", "value": list(v), "v2": True})
+        for n, idx in (("RewardChainBlockUnfinished", 3), ("RewardChainBlock", 5)):
+            if n in D.top:
+                w = G.value(D.top[n])
+                w[idx] = list(v)
+                out.append({"type": n, "value": w, "v2": True})
+    for c in out:
+        c["bytes"], c["marks"] = W.encode(D, D.top[c["type"]], c["value"])
+    return out
+
+
+def run_rt(rep, cache, have_model, stream, cases, valid_meta, quality=None):
     """cases: [(type, bytes, kind)]"""
     need = ["wire.need %s b %s" % (t, bs.hex() or "-") for t, bs, _ in cases]
     tabs = W.with_oracles(cache, need, have_model)
@@ -201,6 +256,13 @@ def run_rt(rep, cache, have_model, stream, cases, valid_meta):
             h = hashlib.sha256(c["bytes"]).hexdigest()
             if not c["v2"] and tok.get("H") != h:
                 rep.add_failure(stream + "/reference", l, i, "H:" + h, "streaming hash differs from SHA-256 of the encoding")
+            elif c["v2"] and quality is not None:
+                # v2 proofs: SHA-256 of the encoding with the proof replaced by its quality string (from the vector files)
+                hq = W.reference_hash(W_D[0], W_D[0].top[c["type"]], c["value"], quality)
+                if hq is not None and tok.get("H") != hq:
+                    rep.add_failure(stream + "/reference", l, i, "H:" + hq,
+                                    "streaming hash of a valid v2 proof of space differs from SHA-256 of the encoding with the proof "
+                                    "replaced by its quality-string commitment")
         st["reference_checked"] = len(valid_meta)
 
 
